@@ -26,8 +26,11 @@ WATCH_CALL = sched.codes_of(O.HandlerCollection) + sched.codes_of(O.BaseOverlay)
     + sched.codes_of(IN.WorkingFrame) + [getattr(O, n).__code__ for n in ("fits_selector",) if hasattr(O, n)]
 # D and E use the very same selector text: the compiled selector is interned, whatever is cached per selector is shared
 SEL = {"A": ("f > a", "a", lambda x: x + 1), "B": ("f > b", "b", lambda x: (x + 1) * 2), "C": ("f(a) > b", "b", lambda x: (x + 1) * 2),
-       "D": ("f > a", "a", lambda x: x + 1), "E": ("f > a", "a", lambda x: x + 1)}
-ARG = {"A": 1, "B": 10, "C": 100, "D": 1000, "E": 2000}
+       "D": ("f > a", "a", lambda x: x + 1), "E": ("f > a", "a", lambda x: x + 1),
+       # T probes through a tag only ($v:@W selects c, the one variable carrying it): next to a named capture of another
+       # thread the union of both must be instrumented
+       "T": ("f > $v:@W", "v", lambda x: (x + 1) * 2 + 1)}
+ARG = {"A": 1, "B": 10, "C": 100, "D": 1000, "E": 2000, "T": 30}
 PATH = os.path.join(os.path.dirname(os.path.dirname(os.path.abspath(__file__))), "worlds", "thrworld.py")
 COUNT = [0]
 
@@ -73,7 +76,7 @@ def run_one(S, tids, plan):
 def main():
     job = json.load(open(sys.argv[1]))
     tids = job["threads"]
-    S = sched.Scheduler(WATCH + (WATCH_CALL if job.get("watch") == "call" else []))
+    S = sched.Scheduler(WATCH + (WATCH_CALL if job.get("watch") == "call" else []), entry_files=("thrworld.py",))
     if hasattr(T, "_tooling_lock"):
         coop = sched.CoopRLock(S)
         T._tooling_lock = coop
